@@ -7,9 +7,14 @@ import (
 	"fmt"
 	"sort"
 	"strings"
+	"sync"
 )
 
+var _ sync.Mutex
+
 func (P *Prog) recDefs(reveal func(name string) bool) string {
+	P.mu.Lock()
+	defer P.mu.Unlock()
 	var names []string
 	for n := range P.usedRec {
 		names = append(names, n)
@@ -73,7 +78,7 @@ func (P *Prog) buildRecDef(sf *SpecFunc) string {
 	var binders, sorts, args []string
 	for _, p := range sf.Params {
 		nm := "v_" + p.Name
-		if p.Type == "bytes" {
+		if p.Type == "bytes" || p.Type == "floats" {
 			env.vars[p.Name] = Val{K: KArr, T: nm}
 			binders = append(binders, "("+nm+" (Array Int Int))")
 			sorts = append(sorts, "(Array Int Int)")
@@ -105,6 +110,15 @@ func (P *Prog) buildRecDef(sf *SpecFunc) string {
 	}
 	app := "(" + sf.Name + " " + strings.Join(args, " ") + ")"
 	decl := fmt.Sprintf("(declare-fun %s (%s) %s)", sf.Name, strings.Join(sorts, " "), ret)
+	if sf.Rec {
+		// recursive: no quantified axiom (it would unfold without bound); the definition is
+		// instantiated at the ground applications occurring in each obligation (see groundUnfold)
+		if P.recTemplates == nil {
+			P.recTemplates = map[string]*recTemplate{}
+		}
+		P.recTemplates[sf.Name] = &recTemplate{params: args, body: parseSexp(x.termOf(body))}
+		return decl
+	}
 	ax := fmt.Sprintf("(assert (forall (%s) (! (= %s %s) :pattern (%s))))", strings.Join(binders, " "), app, x.termOf(body), app)
 	return decl + "\n" + ax
 }
@@ -112,6 +126,8 @@ func (P *Prog) buildRecDef(sf *SpecFunc) string {
 // mentionsTransitively: the goal mentions the opaque function name directly, or through the
 // definition of another opaque function it mentions.
 func (P *Prog) mentionsTransitively(goal, name string) bool {
+	P.mu.Lock()
+	defer P.mu.Unlock()
 	seen := map[string]bool{}
 	var visit func(text string) bool
 	visit = func(text string) bool {
@@ -130,4 +146,124 @@ func (P *Prog) mentionsTransitively(goal, name string) bool {
 		return false
 	}
 	return visit(goal)
+}
+
+type recTemplate struct {
+	params []string
+	body   *sexp
+}
+
+// groundUnfold returns the defining equations of recursive spec functions instantiated at
+// every ground application (no bound variables) in the given assertions, two levels deep.
+func (P *Prog) groundUnfold(asserts []string) []string {
+	P.mu.Lock()
+	defer P.mu.Unlock()
+	if len(P.recTemplates) == 0 {
+		return nil
+	}
+	seen := map[string]bool{}
+	var out []string
+	var work []*sexp
+	var collect func(e *sexp, bound map[string]bool)
+	collect = func(e *sexp, bound map[string]bool) {
+		if e == nil || e.isAtom() {
+			return
+		}
+		h := e.head()
+		if (h == "forall" || h == "exists") && len(e.kids) == 3 {
+			nb := map[string]bool{}
+			for k := range bound {
+				nb[k] = true
+			}
+			for _, b := range e.kids[1].kids {
+				if len(b.kids) > 0 && b.kids[0].isAtom() {
+					nb[b.kids[0].atom] = true
+				}
+			}
+			collect(e.kids[2], nb)
+			return
+		}
+		if _, ok := P.recTemplates[h]; ok {
+			free := true
+			for b := range bound {
+				if e.mentions(b) {
+					free = false
+				}
+			}
+			if free {
+				t := e.String()
+				if !seen[t] {
+					seen[t] = true
+					work = append(work, e)
+				}
+			}
+		}
+		for _, k := range e.kids {
+			collect(k, bound)
+		}
+	}
+	for _, a := range asserts {
+		collect(parseSexp(a), map[string]bool{})
+	}
+	for round := 0; round < 2; round++ {
+		cur := work
+		work = nil
+		for _, appl := range cur {
+			tpl := P.recTemplates[appl.head()]
+			if len(appl.kids)-1 != len(tpl.params) {
+				continue
+			}
+			body := tpl.body
+			for i, p := range tpl.params {
+				body = body.subst(p, appl.kids[i+1])
+			}
+			body = simplifyArith(body)
+			eq := "(= " + appl.String() + " " + body.String() + ")"
+			out = append(out, eq)
+			if round == 0 {
+				collect(body, map[string]bool{})
+			}
+		}
+	}
+	return out
+}
+
+// simplifyArith rewrites (- (+ y c) c) and (+ (- y c) c) to y (c a literal), bottom-up.
+func simplifyArith(e *sexp) *sexp {
+	if e == nil || e.isAtom() {
+		return e
+	}
+	n := &sexp{}
+	for _, k := range e.kids {
+		n.kids = append(n.kids, simplifyArith(k))
+	}
+	if len(n.kids) == 3 && n.kids[2].isAtom() && isLit(n.kids[2].atom) {
+		c := n.kids[2].atom
+		in := n.kids[1]
+		if !in.isAtom() && len(in.kids) == 3 && in.kids[2].isAtom() && in.kids[2].atom == c {
+			if n.head() == "-" && in.head() == "+" || n.head() == "+" && in.head() == "-" {
+				return in.kids[1]
+			}
+		}
+		// (- (+ a b c) c) with c last
+		if n.head() == "-" && !in.isAtom() && in.head() == "+" && len(in.kids) > 3 {
+			last := in.kids[len(in.kids)-1]
+			if last.isAtom() && last.atom == c {
+				m := &sexp{kids: append([]*sexp(nil), in.kids[:len(in.kids)-1]...)}
+				return m
+			}
+		}
+	}
+	return n
+}
+
+func (P *Prog) opaqueNames() []string {
+	P.mu.Lock()
+	defer P.mu.Unlock()
+	var ns []string
+	for n := range P.usedRec {
+		ns = append(ns, n)
+	}
+	sort.Strings(ns)
+	return ns
 }
